@@ -367,8 +367,39 @@ func c15Work(c *engine.Ctx) {
 			c.Count("exec", 1)
 		})
 	}
-	// elision family: one line of L distinct characters with special characters at the cut points
+	// long lines of one-, two-, three- and four-byte characters (up to 1200 bytes in front of the offset): every offset
 	k := 0
+	for _, base := range []rune{'0', 0x100, 0x4E00, 0x10400} {
+		for _, L := range []int{100, 200, 300} {
+			for _, pre := range []int{0, 1} {
+				for _, mix := range []bool{false, true} {
+					k++
+					if !c.Mine(k) {
+						continue
+					}
+					var sb strings.Builder
+					sb.WriteString(strings.Repeat("\n", pre))
+					for i := 0; i < L; i++ {
+						if mix && i%7 == 3 {
+							sb.WriteRune(rune('a' + i%26)) // an ASCII letter now and then shifts the byte alignment
+						} else if base == '0' {
+							sb.WriteRune(rune('0' + i%75))
+						} else {
+							sb.WriteRune(base + rune(i))
+						}
+					}
+					sb.WriteString("\nnext line")
+					t := []byte(sb.String())
+					for o := pre - 1; o <= len(t)-8; o++ {
+						c.Exec(psp, t, map[string]string{"off": strconv.Itoa(o)})
+						c.Count("exec", 1)
+					}
+					c.Count("distinct_nontrivial", 1)
+				}
+			}
+		}
+	}
+	// elision family: one line of L distinct characters with special characters at the cut points
 	specials := []rune{'x', 'é', '😀', '\t', 0x200b, 0x2028, 0x85, 0x9b, 0xad, 0x7f, 0xa0, 0xfeff, '%'}
 	for _, L := range []int{57, 58, 59, 60, 61, 62, 63, 64, 65, 66, 80, 100, 120} {
 		for _, sp := range specials {
@@ -595,7 +626,7 @@ func c15Finish(c *engine.Ctx, cov map[string]interface{}) string {
 func init() {
 	register(&engine.Check{
 		ID: "C15", Level: "exploration",
-		Rule:        "Position on all texts ≤5 (6; 7 over an 11-character core) atoms over {a, \\n, \\r, \\r\\n, U+2028, U+2029, é, 😀, \\t, U+200B, NUL, U+0085, U+00AD, DEL, U+00A0, %, %s} × every offset in [-1,len+1] vs a reference that counts the five break kinds and code points; the elision family (one line of L∈{57..66,80,100,120} distinct characters with a wide/non-printable character at each cut point ±1, preceded by 0/1/9999/100000 lines) × every offset: context shape, caret under the character at the offset, ellipses consistent, at most ~60 characters; every JS seed program (and pairs joined by every line-break kind) and every generated JSON document × every token boundary × illegal characters {@ \\ # U+2019 NUL}: the *parse.Error must carry exactly that position; every *parse.Error produced on the C01 spaces corresponds to Position(input, o) for an offset inside the input (the cursor offset for the lexers)",
+		Rule:        "Position on all texts ≤5 (6; 7 over an 11-character core) atoms over {a, \\n, \\r, \\r\\n, U+2028, U+2029, é, 😀, \\t, U+200B, NUL, U+0085, U+00AD, DEL, U+00A0, %, %s} × every offset in [-1,len+1] vs a reference that counts the five break kinds and code points; the elision family (one line of L∈{57..66,80,100,120} distinct characters with a wide/non-printable character at each cut point ±1, preceded by 0/1/9999/100000 lines) × every offset, and lines of 100/200/300 one- to four-byte characters (pure and mixed with ASCII) × every offset: context shape, caret under the character at the offset, ellipses consistent, at most ~60 characters; every JS seed program (and pairs joined by every line-break kind) and every generated JSON document × every token boundary × illegal characters {@ \\ # U+2019 NUL}: the *parse.Error must carry exactly that position; every *parse.Error produced on the C01 spaces corresponds to Position(input, o) for an offset inside the input (the cursor offset for the lexers)",
 		Assumptions: []string{"CRLF and multi-byte characters are indivisible: an offset inside one is the position of its first byte", "elision is checked by its properties (contiguous piece, ≤66 characters, caret alignment, ellipses), not by re-implementing the constants"},
 		Setup:       c15Setup, Work: c15Work, Finish: c15Finish,
 	})
